@@ -80,9 +80,78 @@ pub fn collect_kind<'a>(n: &'a SyntaxNode, kinds: &[K], out: &mut Vec<&'a Syntax
     }
 }
 
+/// Pieces of prose and inline elements of one Markup node with the physical lines they occupy.
+fn pieces(text: &str, m: &crate::syn::LinkedNode) -> Vec<(String, usize, usize)> {
+    // line index of a byte offset (Typst's newline characters, CRLF once)
+    let line_of = |off: usize| -> usize { syn::count_nl(&text[..off.min(text.len())]) };
+    let mut v = vec![];
+    for c in m.children() {
+        let r = c.range();
+        match c.kind() {
+            K::Text => {
+                let l = line_of(r.start);
+                for w in c.text().split(' ').filter(|w| !w.is_empty()) {
+                    v.push((format!("W:{w}"), l, l));
+                }
+            }
+            K::Strong | K::Emph | K::Raw | K::Link | K::Label | K::Ref | K::Escape | K::Shorthand | K::SmartQuote | K::Equation => {
+                v.push((format!("<{:?}>", c.kind()), line_of(r.start), line_of(r.end)));
+            }
+            _ => {}
+        }
+    }
+    v
+}
+
+/// "Pieces of prose and inline elements that were on one source line stay on one line": for
+/// consecutive pieces of a markup node that share a physical line in the input, the output must
+/// keep them on one physical line (embedded code between them must not be broken over lines).
+fn check_same_line(in_text: &str, inp: &SyntaxNode, out_text: &str, out: &SyntaxNode) -> Result<usize, (String, String)> {
+    use crate::syn::LinkedNode;
+    fn collect<'a>(n: &LinkedNode<'a>, v: &mut Vec<LinkedNode<'a>>) {
+        if n.kind() == K::Markup {
+            v.push(n.clone());
+        }
+        for c in n.children() {
+            collect(&c, v);
+        }
+    }
+    let (mut mi, mut mo) = (vec![], vec![]);
+    collect(&LinkedNode::new(inp), &mut mi);
+    collect(&LinkedNode::new(out), &mut mo);
+    let mut pairs = 0;
+    for (idx, (a, b)) in mi.iter().zip(mo.iter()).enumerate() {
+        let (pa, pb) = (pieces(in_text, a), pieces(out_text, b));
+        if pa.len() != pb.len() || pa.iter().zip(pb.iter()).any(|(x, y)| x.0 != y.0) {
+            continue; // the sequence clause already speaks about this node
+        }
+        for i in 0..pa.len().saturating_sub(1) {
+            if pa[i].2 == pa[i + 1].1 {
+                pairs += 1;
+                if pb[i].2 != pb[i + 1].1 {
+                    return Err((
+                        "C08:same-line-pieces-separated".into(),
+                        format!(
+                            "markup node #{idx}: {:?} and {:?} are on one source line but on different output lines ({} vs {}): something between them was broken over lines",
+                            pa[i].0, pa[i + 1].0, pb[i].2 + 1, pb[i + 1].1 + 1
+                        ),
+                    ));
+                }
+            }
+        }
+    }
+    Ok(pairs)
+}
+
 pub struct ProseOk {
     pub markup_nodes: usize,
     pub multi_line_nodes: usize,
+}
+
+pub fn check_with_text(in_text: &str, inp: &SyntaxNode, out_text: &str, out: &SyntaxNode) -> Result<ProseOk, (String, String)> {
+    let ok = check(inp, out)?;
+    check_same_line(in_text, inp, out_text, out)?;
+    Ok(ok)
 }
 
 pub fn check(inp: &SyntaxNode, out: &SyntaxNode) -> Result<ProseOk, (String, String)> {
